@@ -81,6 +81,7 @@ type Sched struct {
 	yieldAll    bool
 	AutoTick    time.Duration // Now() advances the clock by this much on every call (0 = pure)
 	Drain       bool          // after the last main thread finished, run daemons to quiescence
+	Delay       bool          // delay-bounded instead of preemption-bounded exploration
 	NoPreemptAt map[string]bool
 }
 
@@ -110,6 +111,11 @@ type Options struct {
 	YieldFiles []string // files whose statement-level yields are scheduling points ("*" = all)
 	AutoTick   time.Duration
 	Drain      bool          // see Sched.Drain
+	// Delay selects delay-bounded scheduling (Emmi, Qadeer, Rakamaric 2011): a deterministic
+	// round-robin scheduler, every skipped thread at any decision (including the free choices after
+	// a thread blocks or exits) costs one unit of the bound. Polynomial in the bound where
+	// preemption bounding explodes on code that blocks often.
+	Delay bool
 	StartClock time.Duration // virtual clock offset at which every execution starts
 }
 
@@ -129,6 +135,7 @@ func Run(opt Options, body func()) *Sched {
 		TimerAlt:   opt.TimerAlt,
 		AutoTick:   opt.AutoTick,
 		Drain:      opt.Drain,
+		Delay:      opt.Delay,
 		yieldFiles: map[string]bool{},
 	}
 	if s.MaxSteps == 0 {
@@ -358,7 +365,14 @@ func (s *Sched) enabled(me *thread, exiting bool) []*thread {
 	if !exiting && !me.done && (me.ready == nil || me.ready()) {
 		en = append(en, me)
 	}
-	for _, t := range s.threads {
+	n := len(s.threads)
+	start := 0
+	if s.Delay {
+		// delay-bounded scheduling: the others follow in round-robin order after the running thread
+		start = me.id + 1
+	}
+	for k := 0; k < n; k++ {
+		t := s.threads[(start+k)%n]
 		if t == me || t.done {
 			continue
 		}
@@ -418,12 +432,17 @@ func (s *Sched) schedule(site string, exiting bool) {
 		if nalt > 1 {
 			costs := make([]int, nalt)
 			meEnabled := en[0] == me
-			if meEnabled {
+			if s.Delay {
+				// every departure from the deterministic round-robin choice costs one delay per skipped thread
+				for i := 1; i < nalt; i++ {
+					costs[i] = i
+				}
+			} else if meEnabled {
 				for i := 1; i < nalt; i++ {
 					costs[i] = 1
 				}
 			}
-			if timerAlt {
+			if timerAlt && !s.Delay {
 				costs[nalt-1] = 1
 			}
 			ens := make([]byte, 0, 2*nalt)
